@@ -378,7 +378,7 @@ def execute(ctx):
                 d.clear()
             cf.open_link('sim://cf')
             if not common.wait_until(sim, lambda: 'full' in got, 120.0, 0.01):
-                ctx.violation('6', 'reconnect-failed', 'could not reconnect after %s' % (cut,))
+                ctx.violation('6', 'reconnect-failed' + lock_tag(ctx), 'could not reconnect after %s' % (cut,))
                 return
             st['handshake'] = False
         st['probing'] = True
@@ -386,7 +386,7 @@ def execute(ctx):
         residue(ctx, cf, reqs)
         ok, _, _ = ctx.bounded(cf.close_link, BOUND, 'final-close')
         if not ok:
-            ctx.violation('6', 'final-close_link-hang', 'close_link after the probe did not return (lock left behind?)',
+            ctx.violation('6', 'final-close_link-hang' + lock_tag(ctx), 'close_link after the probe did not return (lock left behind?)',
                           ctx.stack_of('bounded:final-close'))
         P.sim_sleep(0.5)
 
@@ -484,7 +484,7 @@ def check_device(ctx, dev, model, unknown, reqs):
 
 def probe(ctx, cf, dev, nmem, reqs=()):
     sim = ctx.sim
-    otag = offline_tag(reqs)
+    otag = lock_tag(ctx) or offline_tag(reqs)
     mems = {m.id: m for m in cf.mem.mems}
     for mi in range(nmem):
         mem = mems.get(mi)
@@ -503,7 +503,7 @@ def probe(ctx, cf, dev, nmem, reqs=()):
         data = bytes((0xA0 + mi + i) & 0xFF for i in range(30))
         ok, _, exc = ctx.bounded(lambda: cf.mem.write(mem, 1, list(data)), BOUND, 'probe-write')
         if not ok:
-            ctx.violation('6', 'probe-write-call-blocked', 'Memory.write blocked for %g s (lock left behind?)' % BOUND,
+            ctx.violation('6', 'probe-write-call-blocked' + otag, 'Memory.write blocked for %g s (lock left behind?)' % BOUND,
                           ctx.stack_of('bounded:probe-write'))
             return
         if exc is not None:
@@ -532,9 +532,9 @@ def probe(ctx, cf, dev, nmem, reqs=()):
 
 
 def residue(ctx, cf, reqs=()):
-    otag = offline_tag(reqs)
+    otag = lock_tag(ctx) or offline_tag(reqs)
     if cf.mem._write_requests_lock.locked():
-        ctx.violation('6', 'write-lock-left-held', '_write_requests_lock is still held at quiescence')
+        ctx.violation('6', 'write-lock-left-held' + lock_tag(ctx), '_write_requests_lock is still held at quiescence')
     pend_r = dict(cf.mem._read_requests)
     pend_w = {k: v for k, v in cf.mem._write_requests.items() if v}
     if pend_r or pend_w:
